@@ -184,6 +184,9 @@ REQUEST_KINDS = [
     ('one letter', (1,), None, 'first'),
     ('one letter + arguments', (2, 3, 9), True, 'first'),
     ('two letters', (2, 3, 9), False, 'first-two'),
+    # the firmware's two-character names are not all letters: T3, L3, S2 ... (the library sends
+    # T3 itself, clear_accumulators)
+    ('letter + digit', (2, 3, 9), 'digit', 'first-two'),
 ]
 
 
@@ -283,8 +286,38 @@ class CaseHooks(EBB3Hooks):
                     v.args[1] == Sym.const(1) and v.args[2] == Sym.const(2) and v.args[3] == NONE:
                 if self.length < 2:
                     return ''
-                return ',' if self.kind[2] is True else 'letter'
+                return ',' if self.kind[2] is True else (
+                    'digit' if self.kind[2] == 'digit' else 'letter')
             return None
+        # character-class predicates on the leading characters of the request
+        def lead_text(v):
+            # a representative of request[a:b] within the first two characters, or None
+            if isinstance(v, Opaque) and v.label == 'item' and self.is_request(v.args[0]) and \
+                    isinstance(v.args[1], Sym) and v.args[1].is_const():
+                k = int(v.args[1].const_value())
+                lo, hi = k, k + 1
+            elif isinstance(v, Opaque) and v.label == 'slice' and self.is_request(v.args[0]) and \
+                    v.args[3] == NONE and all(x == NONE or (isinstance(x, Sym) and x.is_const())
+                                               for x in v.args[1:3]):
+                lo = 0 if v.args[1] == NONE else int(v.args[1].const_value())
+                hi = None if v.args[2] == NONE else int(v.args[2].const_value())
+            else:
+                return None
+            if lo < 0 or hi is None or hi < 0 or hi > 2:
+                return None
+            second = {True: ',', False: 'M', 'digit': '3', None: ''}[self.kind[2]]
+            rep = ('S' + second)[:self.length]
+            return rep[lo:hi]
+        pv = cond.v if isinstance(cond, Truthy) else None
+        if isinstance(pv, Opaque) and pv.label in ('m:isalpha', 'm:isdigit', 'm:isalnum',
+                                                   'm:isupper', 'm:isnumeric') and pv.args:
+            txt = lead_text(pv.args[0])
+            if txt is not None:
+                return bool(getattr(txt, pv.label[2:])())
+        if isinstance(cond, Pred) and cond.name in ('isalpha', 'isdigit', 'isalnum') and cond.args:
+            txt = lead_text(cond.args[0])
+            if txt is not None:
+                return bool(getattr(txt, cond.name)())
         if isinstance(cond, In) and second_char(cond.item) is not None and \
                 isinstance(cond.container, Tup) and all(
                     isinstance(x, Str) and x.is_lit() for x in cond.container.items):
@@ -672,6 +705,11 @@ def handler_sets(ck, prog, eng):
 
 def analyse(ck, prog, fixture=False, tier='quick'):
     base, cls, family = most_derived(prog)
+    # "waits through up to 25 empty reads" is per request: the primitives may share nothing but
+    # the connection typestate with earlier requests (a retry counter kept on the object is a
+    # budget per object, not per request)
+    from .. import purity
+    purity.check_instance_state(ck, cls, list(PRIMS), 'C05-R-state')
     eng = Engine(prog, cls)
     methods = public_methods(cls)
     requests = []
